@@ -100,6 +100,16 @@ func c10r8(p *model.Prog, r *report.Result) {
 				}
 			}
 			return
+		case *ssa.Call:
+			// the integer comes out of a helper of the package: each of its returns is judged
+			if ce := x.Call.StaticCallee(); ce != nil && model.IsLal(ce) && len(ce.Blocks) > 0 && depth <= 2 {
+				for _, ret := range model.ReturnsOf(ce) {
+					if rv := model.ReturnValues(ret); len(rv) >= 1 {
+						checkInt(ce, stripIntConv(rv[0]), site, depth+1)
+					}
+				}
+			}
+			return
 		case *ssa.Convert:
 			if bt, ok := x.X.Type().Underlying().(*types.Basic); ok && bt.Info()&types.IsFloat != 0 {
 				n++
